@@ -12,7 +12,7 @@ sys.path.insert(0, os.path.join(VERIF, 'vlib'))
 import ll2c
 
 CLANG_FLAGS = ['-O1', '-fno-vectorize', '-fno-slp-vectorize', '-fno-unroll-loops', '-fno-exceptions',
-               '-fno-access-control', '-DHFSM2_DISABLE_TYPEINDEX', '-w']
+               '-fno-access-control', '-w']
 NCPU = int(os.environ.get('VERIF_JOBS', str(os.cpu_count() or 8)))
 
 def log(*a):
@@ -36,7 +36,7 @@ def include_dir(flavour='single'):
     return os.path.join(REPO, 'include') if flavour == 'single' else os.path.join(REPO, 'development')
 
 def build_ir(cpp, ll, defs=(), std='c++14', rtti=False, flavour='single', extra=()):
-    cmd = ['clang++-14', '-std=' + std] + CLANG_FLAGS + ([] if rtti else ['-fno-rtti']) + \
+    cmd = ['clang++-14', '-std=' + std] + CLANG_FLAGS + ([] if rtti else ['-fno-rtti', '-DHFSM2_DISABLE_TYPEINDEX']) + \
           ['-I' + include_dir(flavour), '-I' + os.path.join(VERIF, 'harness')] + ['-D' + d for d in defs] + list(extra) + \
           ['-S', '-emit-llvm', cpp, '-o', ll]
     rc, out, dt = sh(cmd, timeout=300)
@@ -60,7 +60,7 @@ def types_only(txt):
     lines = txt.split('\n'); i = 0
     while i < len(lines):
         ln = lines[i]
-        if ln.startswith('struct ') or ln.startswith('#include') or ln.startswith('_Static_assert'):
+        if (ln.startswith('struct ') and (ln.rstrip().endswith('{') or re.match(r'^struct [A-Za-z_0-9]+;\s*$', ln))) or ln.startswith('#include') or ln.startswith('_Static_assert'):
             # struct def (multi-line) or fwd decl
             out.append(ln)
             if ln.rstrip().endswith('{'):
@@ -97,8 +97,8 @@ def real_object(info, compiler='g++', san=False, opt='-O1'):
         return r
 
 def _real_object(info, compiler, san, opt, o):
-    cmd = [compiler, '-std=' + info['std'], opt, '-w', '-fno-exceptions', '-fno-access-control', '-DHFSM2_DISABLE_TYPEINDEX'] + \
-          ([] if info['rtti'] else ['-fno-rtti']) + (['-fsanitize=address,undefined', '-fno-omit-frame-pointer', '-g'] if san else []) + \
+    cmd = [compiler, '-std=' + info['std'], opt, '-w', '-fno-exceptions', '-fno-access-control'] + \
+          ([] if info['rtti'] else ['-fno-rtti', '-DHFSM2_DISABLE_TYPEINDEX']) + (['-fsanitize=address,undefined', '-fno-omit-frame-pointer', '-g'] if san else []) + \
           ['-I' + include_dir(info['flavour']), '-I' + os.path.join(VERIF, 'harness')] + ['-D' + d for d in info['defs']] + \
           ['-c', info['cpp'], '-o', o]
     rc, out, dt = sh(cmd, timeout=600)
@@ -335,7 +335,7 @@ def build_native(harness_src, defs, obj_real, out_exe, incs=(), san=False, trans
             if rc != 0: raise Broken('vf_native.c compile failed: ' + out[-1000:])
             os.rename(rt + '.tmp', rt)
     link = (['g++'] if cxx_link else ['gcc']) + (['-fsanitize=address,undefined'] if san else []) + [out_exe + '.o', rt] + \
-           ([obj_real] if obj_real else []) + ['-o', out_exe, '-lm']
+           (list(obj_real) if isinstance(obj_real, (list, tuple)) else [obj_real] if obj_real else []) + ['-o', out_exe, '-lm']
     rc, out, dt = sh(link, timeout=600)
     if rc != 0: raise Broken('native link failed: %s\n%s' % (' '.join(link), out[-3000:]))
     return out_exe
